@@ -420,7 +420,12 @@ impl X {
             }
             X::QCol(t, c) => PX::Col(vec![t.clone(), c.clone()]),
             X::Star => PX::Col(vec!["*".into()]),
-            X::Cust(w) => PX::Kw(w.clone()),
+            // a custom fragment stays together as an operand: its own text parsed on its own
+            X::Cust(w) => match vcore::lex::lex(d, w).ok().and_then(|t| vcore::px::parse_expr(d, &t).ok()) {
+                Some(PX::Col(c)) if c.len() == 1 && !w.contains(['"', '`']) => PX::Kw(w.clone()),
+                Some(p) => p,
+                None => PX::Kw(w.clone()),
+            },
             X::AsEnum(t, e) => {
                 if d == Dialect::Postgres {
                     PX::Cast(Box::new(e.expected(d)), format!("ID<{t}>"))
